@@ -119,7 +119,7 @@ PROPS["C03"] = dict(
          ("gen", "entries", seed, 100), ("family", "diamond", 5), ("family", "fanout", 12), ("family", "chainv", 9), ("pc", 3)] if tier == "quick" else
         [("fixtures",), ("gen", "callgraph", seed, 12000), ("gen", "general", seed, 8000), ("gen", "textures", seed, 2000),
          ("gen", "entries", seed, 2000), ("gen", "scale", seed, 400), ("family", "diamond", 7), ("family", "fanout", 40)]),
-    opts=q_opts([0], [0, 48]),
+    opts=q_opts([0, 48], [0, 48, 21, 90]),
     rule="cases: fixtures + structured generator profiles callgraph/general/textures/entries (helper DAGs: chains, diamonds, shared helpers, "
          "fan-out; accesses and calls in if/else, switch, loop, continuing, break-if, nested blocks, value-returning calls in expressions; "
          "0..3 entry points per stage); non-trivial = the output has at least one binding or a push constant; distinct = distinct WGSL text",
@@ -135,7 +135,7 @@ PROPS["C20"] = dict(
     streams=lambda tier, seed: (
         [("fixtures",), ("gen", "callgraph", seed, 300), ("gen", "structs", seed, 200), ("gen", "scale", seed, 40)] if tier == "quick" else
         [("fixtures",), ("gen", "callgraph", seed, 5000), ("gen", "structs", seed, 3000), ("gen", "scale", seed, 600), ("gen", "general", seed, 3000)]),
-    opts=q_opts([4], [4, 52]),
+    opts=q_opts([4, 52], [4, 52, 21]),
     extra=extra_c20,
     rule="cases: fixtures + generator profiles callgraph/structs/scale compared on hook visit counters (update_stages calls, statements walked, "
          "add_types_recursive calls) + deterministic families chain / chain with value-returning calls / diamond / fan-out / nested structs at "
@@ -155,7 +155,7 @@ PROPS["C08"] = dict(
     streams=lambda tier, seed: (
         [("fixtures",), ("types",), ("gen", "structs", seed, 500), ("gen", "general", seed, 300), ("gen", "vertex", seed, 150), ("gen", "entries", seed, 100)] if tier == "quick" else
         [("fixtures",), ("types",), ("gen", "structs", seed, 12000), ("gen", "general", seed, 6000), ("gen", "vertex", seed, 3000), ("gen", "entries", seed, 2000), ("gen", "scale", seed, 300)]),
-    opts=q_opts([4, 37, 6], [4, 37, 70, 6, 3]),
+    opts=q_opts([4, 37, 6, 52], [4, 37, 70, 6, 3, 52, 95]),
     rule="cases: fixtures + generator profiles structs/general/vertex/entries (structs only in uniform/storage/private/workgroup variables, through arrays, nested arrays, "
          "nested structs, only as vertex input, vertex input and storage, fragment input, entry result, function-local, unused); non-trivial = the module has at least one struct type; "
          "distinct = distinct WGSL text",
@@ -170,7 +170,7 @@ PROPS["C09"] = dict(
         [("fixtures",), ("types", 10, seed), ("gen", "structs", seed, 60), ("gen", "vertex", seed, 30), ("gen", "general", seed, 30)] if tier == "quick" else
         [("fixtures",), ("types",), ("gen", "structs", seed, 1500), ("gen", "vertex", seed, 500), ("gen", "general", seed, 500)]),
     # all 2^4 derive switches x 3 representations x validation off/on
-    opts=q_opts(ALL_OPTS[:48], ALL_OPTS),
+    opts=q_opts(ALL_OPTS[:48] + [48, 63, 79, 95], ALL_OPTS),
     rule="cases: fixtures + generator profiles structs/vertex/general, each under ALL 2^4 derive-switch combinations x 3 representations (x validation on/off in the thorough tier); "
          "non-trivial = at least one struct emitted or a documented panic reached; distinct = distinct WGSL text",
     trusted_base=COMMON_TRUSTED,
@@ -184,7 +184,7 @@ PROPS["C04"] = dict(
     streams=lambda tier, seed: (
         [("fixtures",), ("gen", "bindings", seed, 300), ("gen", "general", seed, 300), ("gen", "textures", seed, 150), ("c11rand", seed, 200)] if tier == "quick" else
         [("fixtures",), ("gen", "bindings", seed, 6000), ("gen", "general", seed, 6000), ("gen", "textures", seed, 3000), ("c11rand", seed, 4000), ("gen", "scale", seed, 300)]),
-    opts=q_opts([0], [0, 48]),
+    opts=q_opts([0, 48], [0, 48, 21, 90]),
     rule="cases: fixtures + generator profiles bindings/general/textures + random binding multisets (1..8 groups, sparse / unordered / u32-extreme binding indices, declaration order "
          "unrelated to index order, all resource kinds); non-trivial = at least one bound variable and generation succeeded; distinct = distinct WGSL text",
     trusted_base=COMMON_TRUSTED,
@@ -197,7 +197,7 @@ PROPS["C13"] = dict(
     streams=lambda tier, seed: (
         [("fixtures",), ("pc", 4), ("gen", "general", seed, 400), ("gen", "entries", seed, 150), ("gen", "callgraph", seed, 150)] if tier == "quick" else
         [("fixtures",), ("pc", 5), ("gen", "general", seed, 15000), ("gen", "entries", seed, 4000), ("gen", "callgraph", seed, 4000)]),
-    opts=q_opts([0], [0, 48]),
+    opts=q_opts([0, 48], [0, 48, 21, 90]),
     rule="cases: fixtures + EVERY sequence of entry-point stages up to length 4 (5 thorough) x {unused, used by first / last / middle entry, through helper chains, inside continuing blocks} x 7 push-constant types "
          "+ generator profiles general/entries/callgraph (push constants of scalar, vector, matrix, padded struct, array type; used directly, through helper chains, "
          "in several stages, or not at all); every case is checked, the non-trivial ones declare a push constant; distinct = distinct WGSL text",
@@ -211,7 +211,7 @@ PROPS["C14"] = dict(
     streams=lambda tier, seed: (
         [("fixtures",), ("gen", "entries", seed, 500), ("gen", "general", seed, 300), ("gen", "vertex", seed, 200)] if tier == "quick" else
         [("fixtures",), ("gen", "entries", seed, 12000), ("gen", "general", seed, 6000), ("gen", "vertex", seed, 4000)]),
-    opts=q_opts([0], [0, 48]),
+    opts=q_opts([0, 48], [0, 48, 21, 90]),
     rule="cases: fixtures + generator profiles entries/general/vertex (0..3 entry points per stage, arbitrary names incl. non-ASCII, workgroup sizes from literals and constants, "
          "fragment results: none / bare location / builtin / struct with dense or sparse locations and builtins); non-trivial = at least one entry point; distinct = distinct WGSL text",
     trusted_base=COMMON_TRUSTED + ["EntryPoint.upper = str::to_uppercase(name) is computed by the harness with the same std the generator links (oracle)"],
@@ -224,7 +224,7 @@ PROPS["C15"] = dict(
     streams=lambda tier, seed: (
         [("fixtures",), ("gen", "consts", seed, 600), ("gen", "general", seed, 300)] if tier == "quick" else
         [("fixtures",), ("gen", "consts", seed, 15000), ("gen", "general", seed, 6000)]),
-    opts=q_opts([0], [0, 48]),
+    opts=q_opts([0, 48], [0, 48, 21, 90]),
     rule="cases: fixtures + generator profiles consts/general (explicit and inferred types, constant expressions, references to other constants, negative values, extremes, subnormals, "
          "-0.0, f64, bool, non-scalar constants); non-trivial = at least one module constant; distinct = distinct WGSL text",
     trusted_base=COMMON_TRUSTED + ["float literal text is produced by Rust's Display and read back by rustc: the extractor re-parses each literal with Rust's str::parse and compares bit patterns"],
@@ -237,7 +237,7 @@ PROPS["C12"] = dict(
     streams=lambda tier, seed: (
         [("fixtures",), ("gen", "consts", seed, 600), ("gen", "general", seed, 300), ("gen", "entries", seed, 100)] if tier == "quick" else
         [("fixtures",), ("gen", "consts", seed, 15000), ("gen", "general", seed, 6000), ("gen", "entries", seed, 2000)]),
-    opts=q_opts([0], [0, 48]),
+    opts=q_opts([0, 48], [0, 48, 21, 90]),
     rule="cases: fixtures + generator profiles consts/general/entries (overrides of bool/i32/u32/f32, with and without default, with and without @id, defaults depending on other overrides); "
          "non-trivial = at least one override; distinct = distinct WGSL text",
     trusted_base=COMMON_TRUSTED + ["nagaKey transcribes naga 24 back/pipeline_constants.rs (id.to_string() or name)",
@@ -320,6 +320,10 @@ def extra_c02(pid, tier, seed, workdir, known, write_replay):
     n = 1 if tier == "quick" else 12
     streams = [("fixtures",), ("gen", "textures", seed, 250 * n), ("gen", "general", seed, 250 * n), ("gen", "callgraph", seed, 100 * n), ("gen", "bindings", seed, 100 * n)]
     out, case_by_id = run_tool_on_streams([os.path.join(BIN, "oracle_wgpu")], streams, workdir, "oracle")
+    # the same with validation on (WriteOptions.validate = Some): generation may take another path there
+    out48, _ = run_tool_on_streams([os.path.join(BIN, "oracle_wgpu"), "--opts", "48"],
+                                   [("fixtures",), ("gen", "general", seed, 150 * n), ("gen", "callgraph", seed, 100 * n), ("gen", "textures", seed, 80 * n)], workdir, "oracle48")
+    out = out + "\n" + out48
     items, counts = [], {}
     ncase = 0
     oracle_entries = {}
@@ -406,7 +410,7 @@ PROPS["C02"] = dict(
     streams=lambda tier, seed: (
         [("fixtures",), ("gen", "textures", seed, 400), ("gen", "general", seed, 300), ("gen", "bindings", seed, 100)] if tier == "quick" else
         [("fixtures",), ("gen", "textures", seed, 8000), ("gen", "general", seed, 6000), ("gen", "bindings", seed, 2000), ("gen", "scale", seed, 200)]),
-    opts=q_opts([0], [0, 48]),
+    opts=q_opts([0, 48], [0, 48, 21, 90]),
     extra=extra_c02,
     rule="cases: fixtures + generator profiles textures/general/bindings: uniform / storage(read, read_write) buffers of struct, array, runtime array, scalar, vector, matrix type; every sampled / "
          "depth / multisampled / storage texture type (all storage formats x read/write/read_write/atomic x 1d/2d/2d_array/3d), sampler and sampler_comparison; sparse binding indices; "
@@ -423,7 +427,7 @@ PROPS["C05"] = dict(
     streams=lambda tier, seed: (
         [("fixtures",), ("types",), ("gen", "structs", seed, 400), ("gen", "general", seed, 200), ("gen", "vertex", seed, 100)] if tier == "quick" else
         [("fixtures",), ("types",), ("gen", "structs", seed, 10000), ("gen", "general", seed, 5000), ("gen", "vertex", seed, 2000), ("gen", "scale", seed, 300)]),
-    opts=q_opts([2, 6, 18, 34, 1], [2, 6, 18, 34, 1, 50, 15, 47]),
+    opts=q_opts([2, 6, 18, 34, 1, 50], [2, 6, 18, 34, 1, 50, 15, 47, 95]),
     rule="cases: fixtures + generator profiles structs/general/vertex (scalars, vec2/3/4, all matrix shapes, fixed arrays incl. of vec3/matrices/structs, nested structs, atomics, "
          "vec3-then-scalar packing, @align/@size) x 3 representations with bytemuck host-shareable on (and off); non-trivial = at least one struct emitted; distinct = distinct WGSL text",
     trusted_base=COMMON_TRUSTED + ["Ext.WgslLayout transcribes WGSL 13.4 AlignOf/SizeOf; layoutOK compares it with naga's recorded offsets / spans / strides / Layouter numbers on every validated module",
@@ -437,7 +441,7 @@ PROPS["C06"] = dict(
     streams=lambda tier, seed: (
         [("fixtures",), ("types",), ("gen", "structs", seed, 400), ("gen", "general", seed, 200), ("gen", "vertex", seed, 100)] if tier == "quick" else
         [("fixtures",), ("types",), ("gen", "structs", seed, 10000), ("gen", "general", seed, 5000), ("gen", "vertex", seed, 2000), ("gen", "scale", seed, 300)]),
-    opts=q_opts([4, 20, 36], [4, 20, 36, 52, 68, 84]),
+    opts=q_opts([4, 20, 36, 52, 18, 22], [4, 20, 36, 52, 68, 84, 18, 22, 2, 34]),
     rule="cases: fixtures + generator profiles structs/general/vertex under the three representations (encase on so that runtime arrays are emitted); all member types and nestings "
          "(arrays of arrays, arrays of structs, structs in structs, atomics, trailing runtime arrays, interleaved builtins); non-trivial = at least one struct emitted; distinct = distinct WGSL text",
     trusted_base=COMMON_TRUSTED + ["matrix denotation convention: matCxR<f32> = dims [R, C] in all representations (pinned by the repo's fixtures)"],
@@ -450,7 +454,7 @@ PROPS["C16"] = dict(
     streams=lambda tier, seed: (
         [("fixtures",), ("gen", "unicode", seed, 400), ("gen", "general", seed, 150), ("genpath", "unicode", seed, 100), ("genpath", "general", seed, 100)] if tier == "quick" else
         [("fixtures",), ("gen", "unicode", seed, 10000), ("gen", "general", seed, 3000), ("genpath", "unicode", seed, 2000), ("genpath", "general", seed, 2000)]),
-    opts=q_opts([0], [0, 48]),
+    opts=q_opts([0, 48], [0, 48, 21, 90]),
     rule="cases: fixtures + generator profile unicode (quotes, backslashes, braces, CR/LF, NUL and other control characters, non-ASCII and non-BMP text in comments and identifiers) + general, "
          "embedded and with include paths (spaces, backslashes, quotes, non-ASCII, empty); every real literal token is unescaped by RustLex.unescapeToken AND decoded by syn, both compared with the source; "
          "non-trivial = generation succeeded; distinct = distinct WGSL text",
@@ -562,7 +566,8 @@ def extra_c19(pid, tier, seed, workdir, known, write_replay):
 
 def extra_c18(pid, tier, seed, workdir, known, write_replay):
     n = 1 if tier == "quick" else 10
-    cases = write_stream_file([("fixtures",), ("gen", "general", seed, 120 * n), ("gen", "structs", seed, 80 * n)], os.path.join(workdir, "det.cases"))
+    # the first cases carry an include path (create_shader_module): the strace run covers `--strace-limit` cases from the front
+    cases = write_stream_file([("genpath", "general", seed, 12 * n), ("fixtures",), ("gen", "general", seed, 120 * n), ("gen", "structs", seed, 80 * n)], os.path.join(workdir, "det.cases"))
     args = [os.path.join(BIN, "determinism"), "--cases", cases, "--opts", "0,6,21,38,47" if tier == "quick" else "0,6,21,38,47,53,90,15", "--strace"]
     r = subprocess.run(args, stdout=subprocess.PIPE, stderr=subprocess.PIPE, text=True)
     items, cov = [], {}
@@ -726,7 +731,7 @@ PROPS["C07"] = dict(
     streams=lambda tier, seed: (
         [("fixtures",), ("types", 2, seed), ("gen", "vertex", seed, 500), ("gen", "general", seed, 200), ("gen", "entries", seed, 100)] if tier == "quick" else
         [("fixtures",), ("types",), ("gen", "vertex", seed, 12000), ("gen", "general", seed, 5000), ("gen", "entries", seed, 2000)]),
-    opts=q_opts([0, 17, 37], [0, 17, 37, 53, 22]),
+    opts=q_opts([0, 17, 37, 48], [0, 17, 37, 48, 53, 22]),
     extra=extra_c07,
     rule="cases: fixtures + generator profiles vertex/general/entries (input structs with f32/i32/u32 scalars and vec2-4, arbitrary non-dense and unordered location numbers, builtins "
          "interleaved, several structs per entry, structs shared by entries, bare builtin parameters between struct parameters) x representations / bytemuck / encase switches; each vertex entry is also "
@@ -831,7 +836,7 @@ PROPS["C10"] = dict(
     theorems=["WgslVerif.C10_leaf", "WgslVerif.C10_struct_algorithm", "WgslVerif.C10_offsets_partial"],
     driver_props=["C10"],
     streams=lambda tier, seed: [("gen", "structs", seed, 100 if tier == "quick" else 3000), ("fixtures",), ("types",)],
-    opts=q_opts([20], [20, 22, 68]),
+    opts=q_opts([20, 68], [20, 22, 68]),
     extra=extra_c10,
     rule="cases: generator profiles structs/general under encase + glam; every emitted ShaderType struct is constructed with sentinel values, written through the REAL "
          "encase::StorageBuffer (compiled against encase 0.10 + glam 0.29) and the byte length and the offset of every field are compared with (a) the Lean transcription Ext.Encase and "
@@ -870,6 +875,27 @@ def extra_c01(pid, tier, seed, workdir, known, write_replay):
     b = subprocess.run([os.path.join(BIN, "batch"), "check", "--cases", cases, "--opts", opts, "--out", out_path],
                        stdout=subprocess.PIPE, stderr=subprocess.STDOUT, text=True)
     items, counts, nmod = [], {}, 0
+    optl = [int(x) for x in opts.split(",")]
+    # Ext.RustStatic (Lean) evaluated on the facts of the same real modules: driver prop C01S
+    pred, static_spec = {}, []
+    d = subprocess.run([os.path.join(BIN, "dump"), "--opts", opts], stdin=open(cases), stdout=subprocess.PIPE, text=True)
+    v = subprocess.run([DRIVER, "C01S"], input=d.stdout, stdout=subprocess.PIPE, text=True)
+    benign = {}
+    for line in v.stdout.split("\n"):
+        if not line.startswith("V|C01S|"):
+            continue
+        f = line.split("|", 6)
+        key = (f[2], optl[int(f[3])])
+        tg = f[6].split(",")
+        tags = [tuple((t.split(";") + ["", ""])[:3]) for t in tg if t.startswith("rs")]
+        if tags:
+            pred[key] = tags
+        for t in tg:
+            if "benign" in t:
+                benign[t] = benign.get(t, 0) + 1
+        if f[5].startswith("fail:"):
+            static_spec.append((key, f[5]))
+    rustc = {}
     if not os.path.exists(out_path):
         items.append(("rustc#harness", "batch check produced no result: " + b.stdout[-300:], "", False))
     else:
@@ -883,16 +909,19 @@ def extra_c01(pid, tier, seed, workdir, known, write_replay):
             nmod += 1
             if verdict == "ok":
                 counts["ok"] = counts.get("ok", 0) + 1
+                rustc[(cid, int(opt))] = ("ok", set(), "")
                 continue
             kind = verdict[0]
             if kind == "permitted":
                 counts["permitted"] = counts.get("permitted", 0) + 1
+                rustc[(cid, int(opt))] = ("permitted", set(), "")
                 continue
             if kind == "gen":
                 counts["gen:" + sx(verdict[1])] = counts.get("gen:" + sx(verdict[1]), 0) + 1
                 continue            # the generator did not return Ok: outside this property
             if kind == "syntax":
                 items.append(("rustc#syntax-error", f"option set {opt}: the generated text does not parse: {sx(verdict[1])[:200]}", cid, True))
+                rustc[(cid, int(opt))] = ("rejected", {"rustc#syntax-error"}, sx(verdict[1])[:200])
                 continue
             msgs = [(sx(e[0]), sx(e[1]), sx(e[2])) for e in verdict[1:]]
             sigs = set()
@@ -905,6 +934,7 @@ def extra_c01(pid, tier, seed, workdir, known, write_replay):
                     sigs.add(hit)
                 elif not any(re.search(p, msg) for p in C01_SECONDARY):
                     unknown.append(f"{code} {msg} @ {srcline}"[:160])
+            rustc[(cid, int(opt))] = ("rejected", set(sigs) if sigs else {"rustc#unclassified"}, "; ".join(f"{c} {m_} @ {l_}" for c, m_, l_ in msgs[:3]))
             if not sigs:
                 # a rejected module is reported whatever its messages look like (follow-up messages alone do not excuse it)
                 first = unknown[0] if unknown else "; ".join(f"{c} {m_} @ {l_}" for c, m_, l_ in msgs[:2])[:260]
@@ -912,15 +942,34 @@ def extra_c01(pid, tier, seed, workdir, known, write_replay):
             for s_ in sigs:
                 counts[s_] = counts.get(s_, 0) + 1
                 items.append((s_, f"option set {opt}: rustc rejects the module: " + "; ".join(f"{c} {m_}" for c, m_, _ in msgs[:2])[:260], cid, True))
+    # two-sided validation of the Lean transcription against rustc, and the theorems' conclusions on the real output
+    import c01_static
+    scounts, sproblems = c01_static.compare(pred, rustc)
+    for sig, detail, cid, opt, is_spec in sproblems:
+        items.append((sig, detail, cid, is_spec))
+    for (cid, opt), detail in static_spec:
+        items.append((signature_of_static(detail), f"option set {opt}: {detail[5:300]}", cid, True))
     viol, kn = classify_and_report(pid, items, known, write_replay, case_by_id)
     return {"modules_compiled": nmod, "rustc_verdicts": counts,
-            "oracle": "cargo check of the real generated modules against wgpu 24.0.5, bytemuck 1.25 (derive), encase 0.10 (glam), glam 0.29, serde 1 (nalgebra is not in the offline registry: never compiled)"}, viol, kn, []
+            "ruststatic_vs_rustc": scounts, "ruststatic_predictions": len(pred), "benign_hypotheses_hold": benign,
+            "oracle": "cargo check of the real generated modules against wgpu 24.0.5, bytemuck 1.25 (derive), encase 0.10 (glam), glam 0.29, serde 1 (nalgebra is not in the offline registry: never compiled); "
+                      "Ext.RustStatic (Lean) is evaluated on the facts of the same modules and held against rustc's verdict both ways"}, viol, kn, []
+
+
+def signature_of_static(detail):
+    m = re.match(r"fail:([A-Za-z0-9_.\-]+#[A-Za-z0-9_.\-]+)", detail)
+    return m.group(1) if m else "static#unclassified"
 
 
 PROPS["C01"] = dict(
-    lean_modules=["WgslVerif.Props.C01"],
+    lean_modules=["WgslVerif.Props.C01", "WgslVerif.Props.C01Resolve"],
     theorems=["WgslVerif.C01_no_keyword_idents", "WgslVerif.C01_entry_consts_distinct", "WgslVerif.C01_group_items_distinct", "WgslVerif.C01_struct_items_distinct",
-              "WgslVerif.C01_nested_struct_emitted"],
+              "WgslVerif.C01_nested_struct_emitted",
+              "WgslVerif.C01_static", "WgslVerif.C01_static_ok", "WgslVerif.C01_static_partial", "WgslVerif.C01_resolve", "WgslVerif.C01_resolve_field_types",
+              "WgslVerif.C01_resolve_vertex", "WgslVerif.C01_resolve_entries", "WgslVerif.C01_resolve_groups", "WgslVerif.C01_resolve_push",
+              "WgslVerif.vertexInputsEmittedB_sound", "WgslVerif.C01_names", "WgslVerif.C01_shadow", "WgslVerif.C01_derives_satisfiable", "WgslVerif.C01_literals",
+              "WgslVerif.C01_keywords", "WgslVerif.C01_capture", "WgslVerif.rustType_leaf", "WgslVerif.rustType_named",
+              "WgslVerif.namesBenignB_sound", "WgslVerif.deriveBenignB_sound", "WgslVerif.shadowBenignB_sound"],
     driver_props=["ALL"],
     streams=lambda tier, seed: [("fixtures",), ("gen", "general", seed, 150 if tier == "quick" else 4000), ("gen", "structs", seed, 80 if tier == "quick" else 2000),
                                 ("gen", "unicode", seed, 50 if tier == "quick" else 1000)],
